@@ -243,29 +243,33 @@ def getVersionedPath (identifier version : Str) : Str :=
   let tv := replaceN 46 45 version 2
   dir ++ stem ++ [95, 118] ++ tv ++ (match ext with | some e => 46 :: e | none => [])
 
-/-- the regular expression `_v[0-9]+-[0-9]+-[0-9]+(-[a-z]+)?` matched at the start of `s`
+/-- `[0-9]+` at the start of `s`, then `k digits rest` -/
+def digitsThen (s : Str) (k : Str → Str → Option Str) : Option Str :=
+  let d := s.takeWhile isDigit
+  if d.isEmpty then none else k d (s.dropWhile isDigit)
+
+/-- `-` at the start of `s`, then `k rest` -/
+def dashThen (s : Str) (k : Str → Option Str) : Option Str :=
+  match s with
+  | 45 :: r => k r
+  | _ => none
+
+/-- the optional group `(-[a-z]+)?` after `base` (taken whenever it matches) -/
+def optPre (base s : Str) : Str :=
+  match s with
+  | 45 :: r =>
+    let a := r.takeWhile isLower
+    if a.isEmpty then base else base ++ 45 :: a
+  | _ => base
+
+/-- the regular expression `_v[0-9]+-[0-9]+-[0-9]+(-[a-z]+)?` matched at the start of `s`: the matched text
     (leftmost-first semantics: every repetition is greedy, the optional group is taken when it matches). -/
 def matchFileVer (s : Str) : Option Str :=
   match s with
   | 95 :: 118 :: r0 =>
-    let d1 := r0.takeWhile isDigit
-    if d1.isEmpty then none else
-    match r0.dropWhile isDigit with
-    | 45 :: r1 =>
-      let d2 := r1.takeWhile isDigit
-      if d2.isEmpty then none else
-      match r1.dropWhile isDigit with
-      | 45 :: r2 =>
-        let d3 := r2.takeWhile isDigit
-        if d3.isEmpty then none else
-        let base := 95 :: 118 :: d1 ++ 45 :: d2 ++ 45 :: d3
-        match r2.dropWhile isDigit with
-        | 45 :: r3 =>
-          let a := r3.takeWhile isLower
-          if a.isEmpty then some base else some (base ++ 45 :: a)
-        | _ => some base
-      | _ => none
-    | _ => none
+    digitsThen r0 fun d1 s1 => dashThen s1 fun r1 =>
+    digitsThen r1 fun d2 s2 => dashThen s2 fun r2 =>
+    digitsThen r2 fun d3 s3 => some (optPre (95 :: 118 :: d1 ++ 45 :: d2 ++ 45 :: d3) s3)
   | _ => none
 
 /-- `fileVersionRegex.FindString` with its position: (text before, match, text after). -/
